@@ -111,6 +111,16 @@ def totp_corpus():
     # 19. second block a day's work later: 5 failures, 3 h pause, 5 more -> locked for two hours from the tenth
     s.append([B("a", 0)] + [B("a", 3) for _ in range(4)] + [B("a", 10900)] + [B("a", 3) for _ in range(4)] +
              [B("a", 3700, "good"), B("a", 3400), B("a", 200, "good")])
+    # 20. the daemon's periodic state cleanup runs between the guesses: the failure count must survive it
+    #     (seeded C14-4: cleanup pruned "idle" limiter entries, so pausing after <= 4 failures never locked out)
+    s.append([B("a", 0)] + [B("a", 3) for _ in range(3)] + ["clean 40", B("a", 3), B("a", 3, "good"), "clean 40",
+             B("a", 3, "good"), "clean 3600", B("a", 3, "good")])
+    # 21. four failures, cleanup, four failures, cleanup, ...: the 5th and the 10th still lock (1 h, then 2 h)
+    s.append([B("a", 0)] + [B("a", 3) for _ in range(3)] + ["clean 35"] + [B("a", 3) for _ in range(4)] +
+             ["clean 35", B("a", 3600)] + [B("a", 3) for _ in range(2)] + ["clean 1", B("a", 3, "good"), "clean 7000", B("a", 300, "good")])
+    # 22. cleanup right after an attempt and for two users
+    s.append([B("a", 0), "clean 0", B("a", 1), B("b", 0), "clean 1", B("a", 2), B("b", 0), "clean 100", B("a", 0), B("b", 3)] +
+             [x for _ in range(3) for x in (B("a", 3), B("b", 0), "clean 30")] + [B("a", 3, "good"), B("b", 3, "good")])
     # 13. sixteen goroutines submit the right code at the same moment: at most one is accepted
     s.append(["catt a 0 auto 16", B("a", 3), "catt a 40 auto 16"] + [B("a", 3) for _ in range(5)] +
              ["catt a 3 auto 16", "catt a 3600 auto 16", "catt b 0 auto 16", "catt b 1 auto 16", "catt b 1 auto 4"])
@@ -145,6 +155,8 @@ def gen_totp(rng, nseq, maxlen):
             if profile == "mixed" and rng.random() < 0.3:
                 gap = rng.choice([27, 29, 30, 31, 33, 58, 61])   # walk through adjacent 30 s periods
             ctr = "same" if rng.random() < 0.08 else "auto"
+            if i > 0 and rng.random() < 0.06:
+                ops.append("clean %d" % rng.choice([0, 1, 3, 30, 31, 40, 600, 3600, 86400]))
             if rng.random() < 0.03:
                 ops.append("catt %s %d auto %d" % (u, gap, rng.choice([2, 4, 16])))
             elif rng.random() < 0.1 and u not in hdone:
@@ -166,6 +178,12 @@ def bursts(quick):
     if not quick:
         b += ["burst login seq 60 1000 10 3000", "burst certgen seq 200 5000 20 2000", "burst login conc 4000 10000 100 0",
               "burst loginbasic conc 2000 1000 10 0", "burst checkauth conc 3000 100000 50 0", "burst certgen conc 1500 1000 10 0"]
+    # the limiter as built by the real config loader from a generated config file; judged against the configured values
+    b = ["cfgburst login conc 90 2000 20 0"] + b + ["cfgburst checkauth seq 70 3000 37 0", "cfgburst loginbasic conc 64 500 5 0",
+                                                     "cfgburst certgen conc 64 1000 99 0", "cfgburst login conc 48 - - 0"]
+    if not quick:
+        b += ["cfgburst login conc 400 1000 10 0", "cfgburst certgen seq 120 2500 11 2000", "cfgburst checkauth conc 600 10000 100 0",
+              "cfgburst loginbasic conc 300 - 50 0", "cfgburst login conc 300 4000 - 0", "cfgburst login seq 30 1000 0 0"]
     return b
 
 
@@ -214,7 +232,7 @@ def run(ctx):
     blocks, cur = [], None
     for i, o in enumerate(ops):
         k = o.split()[0]
-        if k in ("seq", "lim", "burst"):
+        if k in ("seq", "lim", "burst", "cfgburst"):
             if cur is not None:
                 blocks.append(cur)
             cur = [k, i, i + 1]
@@ -235,14 +253,24 @@ def run(ctx):
     for bi, i0 in slow_from.items():
         skip.update(range(i0, blocks[bi][2]))
 
+    def canon_totp(line):
+        g = line.split()[:6]
+        if len(g) == 6 and g[3] == "0":
+            g[5] = "-1"   # with no failure counted the time of the last failure has no effect on anything
+        return " ".join(g)
+
     def canon_impl(i):
-        return impl[i][:-5] if impl[i].endswith(" slow") else impl[i]
+        k = ops[i].split()[0]
+        l = impl[i][:-5] if impl[i].endswith(" slow") else impl[i]
+        if k == "clean":
+            return l.split()[0]
+        return canon_totp(l) if k in ("att", "hatt", "catt") and len(l.split()) == 6 else l
 
     def canon_model(i):
         k = ops[i].split()[0]
-        return " ".join(model[i].split()[:6]) if k in ("att", "hatt", "catt") else model[i]
+        return canon_totp(model[i]) if k in ("att", "hatt", "catt") else model[i]
 
-    cmp_idx = [i for i, o in enumerate(ops) if o.split()[0] != "burst" and i not in skip]
+    cmp_idx = [i for i, o in enumerate(ops) if o.split()[0] not in ("burst", "cfgburst") and i not in skip]
     c.diff_streams(ctx, "rate.Limiter.AllowN / validateUserTOTP / TOTP handlers vs KM.RateLimit.allowStep / step",
                    [ops[i] for i in cmp_idx], [canon_impl(i) for i in cmp_idx], [canon_model(i) for i in cmp_idx])
 
@@ -270,6 +298,27 @@ def run(ctx):
             if int(kv["calls"]) != int(kv["backend"]):
                 ctx.broken.append("burst %r: %s backend calls for %s requests that reached it" % (o, kv["calls"], kv["backend"]))
             jops.append("pw %s %s %s %s %s %s %s" % (f[4], f[5], f[3], kv["backend"], kv["r429"], kv["bad"], kv["elapsed_ns"]))
+            jmeta.append(i)
+        elif k == "cfgburst":
+            if impl[i].startswith("err") or "=" not in impl[i]:
+                ctx.broken.append("cfgburst %r: %s" % (o, impl[i]))
+                continue
+            kv = dict(x.split("=", 1) for x in impl[i].split())
+            mv = dict(x.split("=", 1) for x in model[i].split() if "=" in x)
+            burst_rows.append({"op": o, "impl": impl[i], "model": model[i]})
+            if (kv.get("lim_burst"), kv.get("lim_rate_milli")) != (mv.get("lim_burst"), mv.get("lim_rate_milli")):
+                ctx.broken.append("correspondence loadVerifyConfigFile vs KM.RateLimit.effective: %r built burst=%s rate_milli=%s, model burst=%s rate_milli=%s" % (
+                    o, kv.get("lim_burst"), kv.get("lim_rate_milli"), mv.get("lim_burst"), mv.get("lim_rate_milli")))
+            elif int(kv["backend"]) < int(mv["lo"]):
+                ctx.broken.append("cfgburst %r: backend reached %s times, the limiter model admits at least %s" % (o, kv["backend"], mv["lo"]))
+            jops.append("cpw %s %s %s %s %s %s %s" % (f[4], f[5], f[3], kv["backend"], kv["r429"], kv["bad"], kv["elapsed_ns"]))
+            jmeta.append(i)
+        elif k == "clean":
+            if i in skip:
+                continue
+            if not impl[i].startswith("clean"):
+                ctx.broken.append("cleanup op %r answered %r" % (o, impl[i]))
+            jops.append(o)
             jmeta.append(i)
         elif k == "seq":
             jops.append(o)
@@ -327,6 +376,10 @@ def run(ctx):
         elif k == "lim":
             kind = "bucket-bound"
             what = "rate.Limiter admitted more than burst+rate*dt: op %d %r, %s" % (i0 - s, ops[i0], v0)
+        elif k == "cfgburst":
+            kind = "pw-configured-limit:" + ops[s].split()[1]
+            what = "limiter built by loadVerifyConfigFile from a config file with rate_milli=%s burst=%s, %s attempts through %s: %s (%s)" % (
+                ops[s].split()[4], ops[s].split()[5], ops[s].split()[3], ops[s].split()[1], v0, impl[s])
         else:
             kind = "pw-burst:" + ops[s].split()[1]
             what = "password attempts through %s: %s (%s)" % (ops[s].split()[1], v0, impl[s])
@@ -364,6 +417,8 @@ def run(ctx):
         "totp_right_code_newer_step_accepted": sum(v for k, v in by_code.items() if k.split(":")[0] in ("good", "prev", "next") and k.endswith(":accepted")),
         "totp_right_code_used_or_older_step_counted_as_failure": sum(v for k, v in by_code.items() if k.split(":")[0] in ("good", "prev", "next") and k.endswith(":rejected")), "totp_max_failcount": fcmax,
         "totp_lockouts_started": kth, "totp_via_handlers": sum(1 for o in ops if o.startswith("hatt")),
+        "totp_cleanup_passes": sum(1 for o in ops if o.startswith("clean ")),
+        "config_loader_bursts": sum(1 for o in ops if o.startswith("cfgburst ")),
         "totp_concurrent_submissions": sum(1 for o in ops if o.startswith("catt")),
         "totp_ops_moved_off_threshold": sum(1 for a, b in zip(raw, ops) if a.split()[0] in ("att", "hatt", "catt") and a.split()[2] != b.split()[2]),
         "totp_ops_skipped_slow": len(skip),
@@ -372,7 +427,8 @@ def run(ctx):
         "limiter_ops_moved_off_float_boundary": sum(1 for a, b in zip(raw, ops) if a.split()[0] == "at" and a != b),
         "bursts": burst_rows,
         "judged": len(jops),
-        "source_facts": {"lockout_update": f14.get("totp", {}).get("lockout_update"), "backend_callers": f14.get("backend_callers"),
+        "source_facts": {"cleanup_deletes": f14.get("cleanup_deletes"), "totp_limiter_table_writers": f14.get("totp_limiter_table_writers"),
+                         "lockout_update": f14.get("totp", {}).get("lockout_update"), "backend_callers": f14.get("backend_callers"),
                          "limit_check": f14.get("limit_check"), "limiter_config": {k: v for k, v in f14.get("limiter_config", {}).items() if k != "limiter_uses"}},
         "samples": [{"op": ops[i], "impl": impl[i], "model": model[i]}
                     for i in list(range(1, 4)) + list(range(12, 15)) + at_idx[13:16] if i < len(ops)],
